@@ -41,7 +41,7 @@ RULE = (
     "of the target configuration and a probe"
 )
 LEVEL_TEXT = (
-    "Seeded search over prior histories of everything that shares the three global RNGs and the re-seeding side effects of config construction/loading, in K interpreters with different PYTHONHASHSEED plus truly fresh interpreters; each probe must reproduce the golden digest of a pristine process bit for bit, filtered probes must equal the filter reference model applied to the golden unfiltered dataset, and the caller's configuration object must be untouched. Sampling, not proof.",
+    "Seeded search over prior histories of everything that shares the three global RNGs and the re-seeding side effects of config construction/loading, in K interpreters with different PYTHONHASHSEED plus truly fresh interpreters; each probe must reproduce the golden digest of a pristine process bit for bit, filtered probes must equal the filter reference model applied to the golden unfiltered dataset, and the caller's configuration object must be untouched. Noise includes near neighbours of the target generated beforehand, exceptions in the middle of earlier operations and a few long histories; targets include float-proportion arguments, sizes up to 10000 mazes and default-argument probes; one interpreter slot in three runs under python -O. Sampling, not proof.",
     "Trusted: sha256; filter reference model of C08; configurations with seed=None are excluded (their seed is drawn from OS entropy, which no simulator owns). Calling generate() from inside a multiprocessing worker is outside the property's history list.",
 )
 
